@@ -40,6 +40,9 @@ CHECKS = {
  "C10": dict(technique="PBT/fuzz of whole requests (truncation sweep, token and AST mutation, bad operation names and variable payloads, faulted worlds) with a response-format validity predicate and reference-executor error matching",
              text="Every generated request through three entry points must return a GraphQLResult whose response is strict JSON in the specification's format (message, 1-based in-text locations, path, extensions), with data absent exactly after parse/validation failures, error paths pointing at nulls and, for executed requests, exactly one error per faulted position as computed by the reference executor.",
              note="Trusted: check_response in props/c10.py, reference parser for the parse verdict, library validation for the validation verdict (tied to the specification by C06).", ref="3/C10"),
+ "C11": dict(technique="model-based PBT: schema spec -> SDL with drawn order / extension split -> build_schema -> extracted structure must equal the spec; 21 labelled invalid variants must raise a GraphQLError",
+             text="Generated specs are rendered to SDL with a drawn definition order and members split over extend blocks placed anywhere; the built schema's observable structure (members in merged order, wrappers, coerced defaults, descriptions, deprecations, directives, roots, closedness) must equal the spec for every order, with ignore_extensions and additional_types; invalid documents must be rejected with the library's own error hierarchy.",
+             note="Trusted: vlib/ref/schemastruct.py (expected/extract), vlib/gen/sdlsplit.py.", ref="3/C11"),
 }
 ALL = ["C%02d" % i for i in range(1, 21)]
 NA_REASON = "check not built yet (work in progress; see DESIGN.md section 3 for the planned design)"
